@@ -92,3 +92,108 @@ Proof.
   - replace ((- Z.of_N n + Z.of_N L <? Z.of_N L) && (0 <=? - Z.of_N n + Z.of_N L) && (- Z.of_N n + Z.of_N L <? Z.of_N L))%Z
       with false by lia. reflexivity.
 Qed.
+
+(* ------------------------------------------------------------------ 416 from the header text *)
+(* the ways a Range header text fails to denote one satisfiable bytes range on a resource of length cl *)
+Definition text_unparsable (h : option str) : Prop := parse_range_header h = Ok None.
+Definition text_bad_range (h : option str) (cl : pint) : Prop :=
+  exists r, parse_range_header h = Ok (Some r) /\
+    (list_eqb (r_units r) s_bytes = false                         (* another unit *)
+     \/ cl = None                                                 (* length unknown *)
+     \/ List.length (r_ranges r) <> 1%nat                          (* several ranges *)
+     \/ exists L b en, cl = Some L /\ r_ranges r = [(b, en)] /\     (* one range, not satisfiable for L *)
+          let s := fst (asked b en L) in
+          ~ (0 <= s < L /\ match snd (asked b en L) with Some hi => s < hi | None => True end)%Z).
+
+Theorem c416_from_text pd env st0 etag lm acc cl l :
+  make_conditional pd env st0 etag lm acc cl = Ok (MC416 l) <->
+  (cond_method env = true /\ range_request_skipped pd env etag lm acc cl = Ok false /\ l = cl /\
+   (text_unparsable (q_range env) \/ text_bad_range (q_range env) cl)).
+Proof.
+  rewrite cond_416. unfold text_unparsable, text_bad_range. split.
+  - intros (Hm & Hs & Hl & pr & Hp & [->|(r & -> & Hr)]).
+    + repeat split; try assumption. left. exact Hp.
+    + repeat split; try assumption. right. exists r. split; [exact Hp|]. apply rfl_none. exact Hr.
+  - intros (Hm & Hs & Hl & [Hp|(r & Hp & Hr)]).
+    + repeat split; try assumption. exists None. split; [exact Hp|]. left. reflexivity.
+    + repeat split; try assumption. exists (Some r). split; [exact Hp|]. right. exists r. split; [reflexivity|].
+      apply rfl_none. exact Hr.
+Qed.
+
+(* every header text falls in exactly one class: unparsable, bad, or one satisfiable bytes range - the parser never raises *)
+Lemma text_trichotomy h cl :
+  text_unparsable h \/ text_bad_range h cl \/
+  exists r s e, parse_range_header h = Ok (Some r) /\ range_for_length r cl = Ok (Some (Some s, Some e)).
+Proof.
+  destruct (parse_range_header_total h) as ([r|] & Hp); [|left; exact Hp]. right.
+  destruct (rfl_spec r cl) as [[a b]|] eqn:E.
+  - right. destruct (rfl_spec_shape _ _ _ _ E) as (L & s & e & -> & -> & -> & _).
+    exists r, s, e. split; [exact Hp|]. rewrite rfl_correct, E. reflexivity.
+  - left. exists r. split; [exact Hp|]. apply rfl_none. rewrite rfl_correct, E. reflexivity.
+Qed.
+
+(* and when the text is one satisfiable range and processing applies, the answer is that range *)
+Theorem c206_from_text pd env st0 etag lm acc cl r s e :
+  cond_method env = true -> range_request_skipped pd env etag lm acc cl = Ok false ->
+  parse_range_header (q_range env) = Ok (Some r) -> range_for_length r cl = Ok (Some (Some s, Some e)) ->
+  exists L, cl = Some L /\ make_conditional pd env st0 etag lm acc cl = served s e L acc.
+Proof.
+  intros Hm Hs Hp Hr. pose proof Hr as Hr'. rewrite rfl_correct in Hr'. injection Hr' as E.
+  destruct (rfl_spec_shape _ _ _ _ E) as (L & s' & e' & -> & Hs' & He' & _ & _ & Hu).
+  injection Hs' as <-. injection He' as <-. exists L. split; [reflexivity|].
+  rewrite mc_unfold, Hm. unfold process_range_request. rewrite Hs. cbn [bind]. rewrite Hp. cbn [bind].
+  unfold to_content_range_header. rewrite Hr. cbn [bind sub_ arith2 fmt_pint]. unfold served, content_range_text.
+  rewrite Hu. destruct acc; reflexivity.
+Qed.
+
+(* range processing applies, in closed form, when the request has no If-Range *)
+Lemma applies_no_if_range pd env etag lm acc cl :
+  q_if_range env = None ->
+  (range_request_skipped pd env etag lm acc cl = Ok false <->
+   accept_truthy acc = true /\ (exists L, cl = Some L /\ L <> 0%Z) /\ q_range env <> None).
+Proof.
+  intro H. rewrite (skipped_no_if_range _ _ _ _ _ _ H). unfold range_applicable. split.
+  - intro E. injection E as E. apply negb_false_iff in E. apply andb_prop in E. destruct E as [E E3].
+    apply andb_prop in E. destruct E as [E E2]. apply andb_prop in E. destruct E as [E1 E4].
+    split; [exact E1|]. split.
+    + destruct cl as [L|]; [|discriminate]. exists L. split; [reflexivity|]. cbn [pint_eqb] in E2. lia.
+    + destruct (q_range env); [discriminate|discriminate].
+  - intros (H1 & (L & -> & HL) & H3). rewrite H1. cbn [is_none negb andb pint_eqb].
+    replace (L =? 0)%Z with false by lia. destruct (q_range env); [reflexivity|contradiction].
+Qed.
+
+(* text-level facts: no "=" at all is unparsable; any unit other than bytes (after strip and lower) is a bad range *)
+Lemma text_without_equals h :
+  forallb (fun c => negb (EQS =? c)) h = true -> text_unparsable (Some h).
+Proof.
+  intro H. unfold text_unparsable, parse_range_header.
+  assert (E : partition1 EQS h = (h, None)).
+  { induction h as [|c r IH]; [reflexivity|]. cbn [forallb] in H. apply andb_prop in H. destruct H as [H1 H2].
+    cbn [partition1]. destruct (EQS =? c); [discriminate|]. rewrite (IH H2). reflexivity. }
+  rewrite E. reflexivity.
+Qed.
+
+(* a multi-range text and another-unit text are answered 416 *)
+Lemma grammar_two_ranges pd a b c d L acc etag lm st0 :
+  a <= b -> b < c -> c <= d -> 0 < L -> accept_truthy acc = true ->
+  make_conditional pd (range_env (hdr_two a b c d)) st0 etag lm acc (Some (Z.of_N L)) = Ok (MC416 (Some (Z.of_N L))).
+Proof.
+  intros Hab Hbc Hcd HL Hacc. apply c416_from_text. split; [reflexivity|]. split.
+  - apply applies_no_if_range; [reflexivity|]. split; [exact Hacc|]. split; [|discriminate].
+    exists (Z.of_N L). split; [reflexivity|lia].
+  - split; [reflexivity|]. right. eexists. split; [exact (parse_two a b c d Hab Hbc Hcd)|].
+    right. right. left. cbn. lia.
+Qed.
+
+Lemma grammar_other_unit pd u a b L acc etag lm st0 :
+  a <= b -> forallb (fun c => negb (EQS =? c)) u = true -> list_eqb (lower (ustrip u)) s_bytes = false ->
+  0 < L -> accept_truthy acc = true ->
+  make_conditional pd (range_env (hdr_unit_first_last u a b)) st0 etag lm acc (Some (Z.of_N L))
+  = Ok (MC416 (Some (Z.of_N L))).
+Proof.
+  intros Hab Hu Hunit HL Hacc. apply c416_from_text. split; [reflexivity|]. split.
+  - apply applies_no_if_range; [reflexivity|]. split; [exact Hacc|]. split; [|discriminate].
+    exists (Z.of_N L). split; [reflexivity|lia].
+  - split; [reflexivity|]. right. eexists. split; [exact (parse_unit_first_last u a b Hab Hu)|].
+    left. exact Hunit.
+Qed.
